@@ -221,7 +221,7 @@ def _line_slab_intersection(a, b, h, n):
     origin_in_plane = (bdota <= sc.scalar(0.0, unit=h.unit)) & (bdota >= -h)
     parallel_to_slab = sc.abs(ndota) == sc.scalar(0, unit=ndota.unit)
     t0 = bdota / ndota
-    t1 = t0 + h / ndota
+    t1 = (bdota + h) / ndota
     left = _minimum(t0, t1)
     right = _maximum(t1, t0)
     return (
